@@ -124,6 +124,41 @@ def run(rep, tier, rng):
     rep.sample({"case_kind": "read", "shp_bytes_hex": refesri.encode_shp(models[0]).hex()[:400], "req": -1})
     stages.correspondence(rep, "read", dev, cases, "read(reference files)",
                           oracle=lambda c, r: table[id(c)](c, r))
+    # ---- with the reference index: one random access first, then the whole iteration (or the bulk read) on the same
+    # reader — what record i decodes to does not depend on which record was fetched before
+    icases, imeta = [], []
+    for m in models:
+        n = len(m["records"])
+        if n < 2 or len(icases) >= (400 if tier == "thorough" else 80):
+            continue
+        shp, shx = refesri.encode_shp(m), refesri.encode_shx(m)
+        for k in sorted({0, n - 1, rng.randrange(n)}):
+            ops = [("nth", k), ("it", -1)] if rng.random() < 0.7 else [("nth", k), ("readall",)]
+            icases.append(C.read_case(-1, shp, shx, ops))
+            imeta.append((m, k, ops))
+    iimpl = stages.correspondence(rep, "read_idx", dev, icases, "read(reference files with index, random access then iteration)")
+    for c, (m, k, ops), r in zip(icases, imeta, iimpl):
+        rd = C.parse_read(r, ops)
+        exp = [refesri.denote(rec["shape"]) for rec in m["records"]]
+        msg = None
+        if rd.get("panic") or "open_err" in rd:
+            msg = "conformant file with its index: open failed or panicked: %r" % (rd,)
+        else:
+            first = rd["ops"][0]["nth"]
+            if first is None or first[0] != "ok" or list(first[1]) != list(exp[k]):
+                msg = "read_nth_shape(%d) of a conformant file returned %r" % (k, first)
+            elif "items" in rd["ops"][1]:
+                got = [list(it[1]) if it[0] == "ok" else it for it in rd["ops"][1]["items"]]
+                if got != [list(e) for e in exp]:
+                    msg = "after read_nth_shape(%d) the iteration over a conformant file does not decode its %d records as they encode" % (k, len(exp))
+            else:
+                al = rd["ops"][1]["all"]
+                if al[0] != "ok" or [list(v) for v in al[1]] != [list(e) for e in exp]:
+                    msg = "after read_nth_shape(%d) the bulk read of a conformant file does not return its %d records as they encode" % (k, len(exp))
+        if msg:
+            rep.violation({"kind": "oracle", "what": msg, "case_kind": "read", "case": c})
+            break
+    rep.cov["random_access_then_iteration_cases"] = len(icases)
     # counts beyond the reader's pre-sizing cap (1024): parts, patches, rings, points; each followed by a small record
     # (a reader that loses its place in the large one misreads the next); model too in the thorough tier
     bigs = []
